@@ -1,8 +1,8 @@
 SPECIFICATION MCSpec
 CONSTANTS
  WIds = {1, 2}
- RIds = {1, 2, 3, 4, 5}
- NIds = {1, 2, 3, 4, 5}
+ RIds = {1, 2, 3}
+ NIds = {1, 2, 3}
  KeyIds = {1, 2, 3}
  CfgSet <- CfgFault
  Univ <- FaultUniv
